@@ -823,7 +823,7 @@ func runC19Crash(c *rt.Ctx) {
 }
 
 func init() {
-	register(&Prop{ID: "C19", Level: "model_checking", QuickBudget: 200 * time.Second, ThoroughBudget: 30 * time.Minute,
+	register(&Prop{ID: "C19", Level: "model_checking", QuickBudget: 300 * time.Second, ThoroughBudget: 30 * time.Minute,
 		Run: func(c *rt.Ctx) {
 			c.Cov["rule"] = "E3 on the wallet world: every history up to the depth bound over the C17 alphabet plus send-to-pubkey, receive of P2PK tokens and restore-then-continue (thorough adds a long scripted history with > 300 outputs on one keyset, a rotation in the middle and restore -> continue -> restore); the transport log yields every B_ submitted in the outputs of /v1/mint/bolt11, /v1/swap, /v1/melt/bolt11 and whether it was signed; with the NUT-13 outputs of every wallet seed derived by the harness: no (keyset, counter) that was already signed is submitted again, the stored counter is past every signed counter; in every state Restore(mnemonic) into an empty directory must yield spendable + pending == mint-side unspent + pending value of that seed's signed outputs (read from the mint stores)"
 			runWSpecs(c, c19Specs(c.Quick()))
